@@ -1,5 +1,7 @@
 """C11: re-meshing an assembly axially conserves atoms and integrated quantities (real HexAssembly/HexBlock objects,
-real overlap search, real uniform-mesh mapping, real mesh filter and step-function resampling)."""
+real overlap search, real uniform-mesh mapping, real mesh filter and step-function resampling; the public common-mesh
+generator generateCommonMesh with decusping on a mini core with a control assembly whose absorber boundaries are
+symbolic; makeAssemWithUniformMesh with and without includePinCoordinates)."""
 import itertools
 
 import numpy as _np
@@ -537,7 +539,7 @@ STUBS_CORE = STUBS + ["grids.structuredGrid.np -> object-array aware numpy shim 
 #   control 1..60,   minimum 2 -> common mesh [1, 25, 60, 125, 175]    (first cell 0..1 thinner than 2)
 # While the flag is set the two obligations on the ends are required only when no control boundary lies within the
 # minimum of that end; set it to False to see the violations.
-KNOWN_DEFECT_decusp_ignores_assembly_ends = True
+KNOWN_DEFECT_decusp_ignores_assembly_ends = False  # recorded in known_findings.jsonl
 FUEL_25_125 = (25.0, 125.0, 175.0)
 FUEL_SHORT = (40.0, 60.0, 100.0)
 
